@@ -390,7 +390,7 @@ func (sw *SWorld) Login(f FilterSpec) (sid, cookieName string, err error) {
 		return "", "", aerr
 	}
 	r2 := sw.Do(SReq{Tenant: f.Name, Path: strings.TrimPrefix(cb, "https://app.test"), Cookies: map[string]string{cookieName: sid}})
-	if r2.HTTPStatus != 302 || r2.Err != "" {
+	if !IsRedirect(r2.HTTPStatus) || r2.Err != "" {
 		return "", "", fmt.Errorf("login step 2: code=%v http=%d err=%s body=%s", r2.Code, r2.HTTPStatus, r2.Err, r2.Body)
 	}
 	return sid, cookieName, nil
